@@ -156,6 +156,22 @@ claim('C07',
       'auxiliary variables, option plumbing, solve code 150. No native replay driver.',
       'DESIGN.md 4 C07')
 
+claim('C06',
+      'Multiplication-free preprocessors: function and loop contracts on the real PreprocessInfo::narrow_result_bounds, '
+      'FlatModel::{lb_array, ub_array, lb_max_array, ub_min_array, common_type, is_fixed, fixed_value, is_integer_var, '
+      'is_integer_value}, count_fixed_01, FixEqualityResult, the rhs rounding of conditional comparisons (all four kinds, all '
+      'doubles) and PreprocessConstraint for Abs, Min, Max, IfThen, Not, AllDiff, Implication, Count, NumberofConst, NumberofVar, '
+      'the fixed-result part of And/Or, and the result boxes of Exp, ExpA, Sin, Cos, Tanh, Asin, Acos, Atan, Cosh, Acosh - for '
+      'argument lists and models of any size: the array functions return exactly the min/max of the box ends (witness position + '
+      'arbitrary common bound), types are INTEGER only for integer-valued arguments, aliases only when exact, fixed results only '
+      'when justified for every body value, range boxes contain the range constants of the functions.',
+      'Trusted: CBMC (fabs/floor/ceil models), extractor (prepro / model handle objects as free functions), arguments are valid '
+      'variable indices, bounds not NaN, the body box given to FixEqualityResult is sound. NOT under contract (IEEE '
+      'multiplication/division/pow monotonicity is beyond every installed back end): ComputeBoundsAndType for linear/quadratic '
+      'terms, ProductBounds, Div, Pow, And/Or argument filtering, NarrowVarBounds propagation, lin_approx.h. The claim is restricted '
+      'accordingly.',
+      'DESIGN.md 4 C06')
+
 for pid, reason in [
     ('C01', 'relational whole-pipeline equivalence across ~12k lines of CRTP templates; no function boundary carries it and the code is outside the mechanically extractable C subset (DESIGN.md 5)'),
     ('C09', 'whole-process behaviour (exit status, files, exception propagation through try/catch) - not expressible as function contracts here (DESIGN.md 5)'),
